@@ -230,6 +230,12 @@ def property_cases():
                          "i", br("prbeq", "f", R(X), I(2)), ins("mul", R(6), R(X), I(2)), {"op": "jmp", "l": "j"}, "f", ins("add", R(6), R(X), R(X)), "j",
                          ins("add", R(RES), R(RES), R(6)), ins("add", R(Y), R(Y), I(1)), br("blt", "i", R(Y), I(2)),
                          ins("add", R(CNT), R(CNT), I(1)), br("blt", "o", R(CNT), I(2))],
+        "reg_to_mem": [ins("prset", None, R(X), I(3)), ins("mov", M("i64", 128, 1), R(X)), br("prbeq", "f", M("i64", 128, 1), I(3))]
+                      + slow + [{"op": "jmp", "l": "j"}, "f"] + fast + ["j"],
+        "mem_prop_store_other_base": [ins("mov", M("i64", 128, 1), R(X)), ins("prset", None, M("i64", 128, 1), I(5)), ins("add", R(CNT), R(1), I(144)),
+                                      ins("mov", M("i64", 0, CNT), R(Y)), br("prbeq", "f", M("i64", 128, 1), I(5))] + slow + [{"op": "jmp", "l": "j"}, "f"] + fast + ["j"],
+        "laddr_jmpi": [ins("prset", None, R(X), I(3)), {"op": "laddr", "d": R(CNT), "l": "t"}, {"op": "jmpi", "s": [R(CNT)]},
+                       "t", br("prbeq", "f", R(X), I(3))] + slow + [{"op": "jmp", "l": "j"}, "f"] + fast + ["j"],
         "prbne": [ins("prset", None, R(X), I(3)), br("prbne", "f", R(X), I(3))] + fast + [{"op": "jmp", "l": "j"}, "f"] + slow + ["j"],
         "prbne_unknown": [br("prbne", "f", R(X), I(0))] + slow + [{"op": "jmp", "l": "j"}, "f"] + wrong + ["j"],
         "zero_known": [ins("prset", None, R(X), I(0)), br("prbeq", "f", R(X), I(0))] + wrong + [{"op": "jmp", "l": "j"}, "f"] + slow + ["j"],
@@ -243,7 +249,10 @@ def property_cases():
                 if isinstance(it, dict) and it.get("op") == "prset":
                     it = {"op": "prset", "s": it["s"]}
                 fixed.append(it)
-            insns, _ = progs.assemble(fixed)
+            insns, pcs = progs.assemble(fixed)
             w = lambda v: (v & ((1 << 64) - 1)).to_bytes(8, "little")
-            out.append(progs.family_case(insns, 6, w(x) + w(y)))
+            c = progs.family_case(insns, 6, w(x) + w(y))
+            if name == "laddr_jmpi":
+                c["prog"]["funcs"][0]["lrefs"] = [{"l": pcs["t"], "l2": 0, "d": 0}]       # the jmpi target is a label known to lref data
+            out.append(c)
     return out
